@@ -1,22 +1,20 @@
 // C13: desugaring extended notation preserves the language.
 //
-// E: one nonterminal S whose rule body is every extended-notation expression of a bounded size over
+// Enumerated: one nonterminal S whose rule body is every extended-notation expression of a bounded
+// size over the leaves ta, tb, X (X: tc | tc X), set(ta | tb), set(~ta), (?= X) and the operators e?,
+// (e | e), e e, e*, e+, (e separator ta)+, (e separator ta)*. A second input Z is declared after S (so
+// that nonterminals extracted from S shift it), refers to S and contains a list that S may extract too.
+// Layer "tm": the text goes through the real compiler.Compile and the plain rules are read from
+// grammar.Parser.Rules (LHS/RHS only, state markers skipped). Layer "model": the same expression is
+// built as a syntax.Model in Go with subsets of its lists flagged RightRecursive (the tm front end
+// never sets that flag) and run through syntax.Expand + syntax.ResolveSets.
 //
-//	the leaves {ta, tb, X, set(ta | tb), set(~ta), (?= X)} (X: tc | tc X) and the operators e?,
-//	(e | e), e e, e*, e+, (e separator ta)+, (e separator ta)*; a second input Z (declared after S,
-//	so that nonterminals extracted from S shift it) reuses S and a list S may also extract.
-//	Layer "tm": the text goes through the real compiler.Compile; the plain rules are read from
-//	grammar.Parser.Rules (LHS/RHS only, state markers skipped). Layer "model": the same expression
-//	is built as a syntax.Model in Go with every subset of its lists flagged RightRecursive (the tm
-//	front end never sets that flag) and run through syntax.Expand + syntax.ResolveSets.
+// Oracle: the language of the extended expression by structural recursion truncated at L=6 (a set is
+// the choice of its terminals, a lookahead marker is the empty string) versus the bounded language of
+// the plain rules (extsem.PlainLangs, cross-checked against cfgoracle.Lang for small languages).
 //
-// O: the language of the extended expression by structural recursion truncated at L=6 (sets = choice
-//
-//	of their terminals, lookahead marker = ε) versus the bounded language of the plain rules
-//	(extsem.PlainLangs; cross-checked against cfgoracle.Lang for the small languages).
-//
-// Conflicts are irrelevant: compiler.Compile returns the grammar together with conflict errors and
-// Parser.Rules is filled before lalr.Compile runs.
+// Conflicts are irrelevant here: compiler.Compile returns the grammar together with the conflict
+// errors, and Parser.Rules is filled before lalr.Compile runs.
 package main
 
 import (
@@ -672,6 +670,11 @@ func check(cs *cas) (res result) {
 
 // ---------- enumeration
 
+type violation struct {
+	key, what string
+	cs        *cas
+}
+
 type level struct {
 	name   string
 	bodies func() []*expr
@@ -735,9 +738,11 @@ func run(c *core.Ctx) {
 	}
 	c.Rule("bodies enumerated by (depth, leaves), simplest first, over 6 leaf kinds {ta, tb, X, set(ta|tb), set(~ta), (?= X)}, 5 unary and 2 binary " +
 		"operators: every expression of depth<=2 and of depth 3 with one leaf; every depth-3 operator shape with 2..4 leaves under a fixed list of leaf " +
-		"labelings (thorough: all 36 labelings for 2 leaves, all 216 for 3 leaves, then 4 leaves under 24 labelings, budget permitting). Each body goes " +
+		"labelings (thorough: all 36 labelings for 2 leaves, then all 216 labelings for 3 leaves and 24 more for 4 leaves one labeling per level " +
+		"until 18 minutes have passed). Each body goes " +
 		"through compiler.Compile (tm layer) and through syntax.Expand on a hand-built model with subsets of its lists right-recursive (model layer). " +
-		"nontrivial = distinct denoted languages of S (string sets up to length 6) that are neither empty nor everything")
+		"nontrivial = bodies (all distinct expressions) whose denoted language of S, as a string set up to length 6, is neither empty nor everything; " +
+		"the number of distinct such languages is reported as distinct_languages_of_S")
 	c.Assume("set(~ta) is the complement over all terminals of the grammar including eoi and invalid_token (sides with syntax/set.go; C15 owns that question)")
 	c.Assume("a lookahead marker (?= X) denotes the empty string")
 
@@ -776,9 +781,10 @@ func run(c *core.Ctx) {
 	lab2 := [][]string{{"a", "a"}, {"a", "X"}, {"la", "b"}, {"setab", "setna"}}
 	lab3 := [][]string{{"a", "a", "la"}}
 	lab4 := [][]string{{"a", "la", "a", "X"}}
-	levels = append(levels, labeled(2, lab2, "ones"), labeled(3, lab3, "ones"), labeled(4, lab4, "none"))
-	if !c.Quick() {
-		var all2, all3, more4 [][]string
+	if c.Quick() {
+		levels = append(levels, labeled(2, lab2, "ones"), labeled(3, lab3, "ones"), labeled(4, lab4, "none"))
+	} else {
+		var all2, all3 [][]string
 		for _, a := range leafKinds {
 			for _, b := range leafKinds {
 				all2 = append(all2, []string{a, b})
@@ -787,21 +793,42 @@ func run(c *core.Ctx) {
 				}
 			}
 		}
-		for i := 0; i < 24; i++ { // 24 labelings of 4 leaves: every leaf kind in every position, mixed neighbours
-			more4 = append(more4, []string{leafKinds[i%6], leafKinds[(i/2+i)%6], leafKinds[(i*5+1)%6], leafKinds[(i/6+i*2)%6]})
+		// 4 leaves: the quick labeling plus 24 more (every leaf kind in every position, mixed neighbours)
+		more4 := append([][]string{}, lab4...)
+		seen := map[string]bool{strings.Join(lab4[0], ","): true}
+		for i := 0; i < 24; i++ {
+			l := []string{leafKinds[i%6], leafKinds[(i/2+i)%6], leafKinds[(i*5+1)%6], leafKinds[(i/6+i*2)%6]}
+			if k := strings.Join(l, ","); !seen[k] {
+				seen[k] = true
+				more4 = append(more4, l)
+			}
 		}
-		levels = append(levels, labeled(2, all2, "nonzero"), labeled(3, all3, "ones"), labeled(4, more4, "ones"))
+		// 2 leaves complete, then 4 leaves under the quick labeling, then 3 leaves one labeling at a
+		// time (216 of them), then the remaining labelings of 4 leaves: the tail is cut by the budget.
+		levels = append(levels, labeled(2, all2, "nonzero"), labeled(4, more4[:1], "ones"))
+		for _, l := range all3 {
+			lv := labeled(3, [][]string{l}, "ones")
+			lv.name = "depth3/leaves3/" + strings.Join(l, "-")
+			levels = append(levels, lv)
+		}
+		for _, l := range more4[1:] {
+			lv := labeled(4, [][]string{l}, "ones")
+			lv.name = "depth3/leaves4/" + strings.Join(l, "-")
+			levels = append(levels, lv)
+		}
 	}
+	// own soft limit for the thorough tier (the framework's is 25 min)
+	overBudget := func() bool { return c.Expired() || (!c.Quick() && time.Since(c.Start) > 18*time.Minute) }
 
 	var mu sync.Mutex
 	distinct := map[uint64]bool{}
-	var nCross, nConfl, nModel, nRR, nBodies int64
+	var nCross, nConfl, nModel, nRR, nBodies, nNontriv int64
 	stopped := false
 	for _, lv := range levels {
 		if stopped {
 			break
 		}
-		if c.Expired() {
+		if overBudget() {
 			c.Capped("levels from " + lv.name + " on were not enumerated (budget)")
 			break
 		}
@@ -809,8 +836,9 @@ func run(c *core.Ctx) {
 		const chunk = 64
 		nChunks := (len(batch) + chunk - 1) / chunk
 		expired := false
+		found := make([][]violation, nChunks)
 		core.ParallelFor(nChunks, 16, func(ci int) {
-			if c.Expired() {
+			if overBudget() {
 				mu.Lock()
 				expired = true
 				mu.Unlock()
@@ -850,6 +878,7 @@ func run(c *core.Ctx) {
 						}
 						if r.key == "" && r.nontriv {
 							distinct[r.sHash] = true
+							nNontriv++
 						}
 						if r.crossed {
 							nCross++
@@ -860,14 +889,24 @@ func run(c *core.Ctx) {
 							nRR++
 						}
 					}
-					mu.Unlock()
 					if r.key != "" {
-						c.Violate(r.key, r.what, cs)
+						found[ci] = append(found[ci], violation{r.key, r.what, cs})
 					}
+					mu.Unlock()
 				}
 			}
 		})
-		c.Outcome("level:"+lv.name, int64(len(batch)))
+		for _, list := range found { // in enumeration order
+			for _, f := range list {
+				c.Violate(f.key, f.what, f.cs)
+			}
+		}
+		cls := lv.name
+		if parts := strings.Split(cls, "/"); len(parts) == 3 && !c.Quick() && strings.Contains(parts[2], "-") && !strings.HasSuffix(parts[2], "labelings") {
+			cls = parts[0] + "/" + parts[1] + "/one-labeling-per-level"
+			c.Add("levels:"+cls, 1)
+		}
+		c.Outcome("level:"+cls, int64(len(batch)))
 		if expired {
 			c.Capped("level " + lv.name + " was cut short (budget)")
 			break
@@ -877,7 +916,7 @@ func run(c *core.Ctx) {
 			stopped = true
 		}
 	}
-	c.Nontrivial(int64(len(distinct)))
+	c.Nontrivial(nNontriv)
 	c.Set("bodies", nBodies)
 	c.Set("distinct_languages_of_S", len(distinct))
 	c.Set("bodies_with_conflicts_still_checked", nConfl)
